@@ -5,6 +5,7 @@ import (
 	"fmt"
 	"math/rand"
 	"os"
+	"path/filepath"
 	"sort"
 	"sync"
 	"time"
@@ -139,6 +140,8 @@ func (c12) Gen(rng *rand.Rand, tier string, k int) *Case {
 			a.SrcAbsent = true
 		case 2:
 			a.TgtN = 0
+		case 3:
+			a.TgtN, a.TgtEmpty = 0, true
 		}
 		c.Assets = append(c.Assets, a)
 	}
@@ -332,7 +335,15 @@ func (c12) Run(c *Case, st *Stats) []Violation {
 						return
 					}
 				}
-				if !a.TgtAbsent {
+				if !a.TgtAbsent && a.TgtEmpty && c.Impl == "file" {
+					// the usual way to register an asset in a file-system target: an empty file
+					if err := os.WriteFile(filepath.Join(dir, a.Name+".csv"), nil, 0o644); err != nil {
+						add("setup-error", "-", err.Error())
+						return
+					}
+					inTarget[a.Name] = true
+					st.Faults["target-asset-registered-by-empty-file"]++
+				} else if !a.TgtAbsent {
 					before[a.Name] = syncSnapshots(a.TgtFrom, a.TgtN, a.Seed+1, 2)
 					if err := fill(tgt, a.Name, before[a.Name]); err != nil {
 						add("setup-error", "-", err.Error())
